@@ -104,6 +104,24 @@ func c07Request(rng *core.Rng, assets map[string]*refmodel.Asset) (string, int64
 			class = "chunked-"
 		}
 	}
+	if class == "patch-" && rng.Chance(0.5) {
+		// the patch document itself: MPD of an earlier publishTime against the MPD of now; in some of them the stream
+		// stops in between (dynamic -> static: several attributes of one element disappear in one patch)
+		pub := now/1000 - int64(rng.Range(2, 50))
+		if rng.Chance(0.5) {
+			stop := now/1000 - int64(rng.Range(1, 20))
+			pub = stop - int64(rng.Range(2, 30))
+			if cfg.StartS != nil && *cfg.StartS > pub-60 {
+				cfg.StartS = nil
+			}
+			cfg.StopS = p64(stop)
+			if rng.Chance(0.4) {
+				cfg.Extra = append(cfg.Extra, "spd_10")
+			}
+		}
+		pt := time.Unix(pub, 0).UTC().Format("2006-01-02T15:04:05Z")
+		return "/patch" + cfg.Prefix(ar.Asset) + "/" + strings.Replace(ar.MPD, ".mpd", ".mpp", 1) + "?publishTime=" + pt, now, "patchdoc"
+	}
 	prefix := cfg.Prefix(ar.Asset)
 	reps := a.RepIDs()
 	rep := a.Reps[core.Pick(rng, reps)]
@@ -207,7 +225,7 @@ func (C07) Gen(rng *core.Rng, tier string, idx int) *core.Scenario {
 		sc := core.NewScenario("C07", "bubble", 0, tier, w)
 		for i := 0; i < n/2+2; i++ {
 			p, _, cl := c07Request(rng, assets)
-			if strings.HasPrefix(cl, "chunked") {
+			if strings.HasPrefix(cl, "chunked") || cl == "patchdoc" {
 				continue
 			}
 			// instants reachable by the bubble clock (it starts at 2000-01-01): rewrite start-relative parts
